@@ -43,6 +43,9 @@ Definition n_w : str := [119]%N.   (* w *)
 Definition n_sp3 : str := [115; 112; 51]%N.   (* sp3 *)
 Definition n_still_here : str := [115; 116; 105; 108; 108; 32; 104; 101; 114; 101]%N.   (* still here *)
 Definition n_sp4 : str := [115; 112; 52]%N.   (* sp4 *)
+Definition n_i : str := [105]%N.   (* i *)
+Definition n_f : str := [102]%N.   (* f *)
+Definition n_g : str := [103]%N.   (* g *)
 
 Definition nv_c15 : source :=
   [ SAssign n_x (EInt 10);
@@ -123,6 +126,21 @@ Definition nv_c12 : source :=
     SPrint (EGet (EVar n_o1) n_sp4);
     SPrint (EStr n_unreachable) ].
 
+Definition nv_mix : source :=
+  [ SAssign n_x (EInt 1);
+    SAssign n_f (EFn [n_n] [SAssign n_i (EInt 0);
+      SWhile (EBool true) [SOpAssign n_i BAdd (EInt 1); SIfElif (EBin BGt (EVar n_i) (EVar n_n)) [SBreak] (SIfElse (EBin BEq (EBin BMod (EVar n_i) (EInt 2)) (EInt 0)) [SContinue] [SModify n_x (EBin BAdd (EVar n_x) (EVar n_i))]); SAssert (EBin BGt (EVar n_x) (EInt 0)) n_sp1];
+      SOpAssign n_x BMul (EInt 2);
+      SReturn (Some (EVar n_i))]);
+    SPrint (call n_f [(EInt 5)]);
+    SPrint (EVar n_x);
+    SAssign n_g (EFn [] [SOpAssign n_x BSub (EInt 3);
+      SReturn None]);
+    SExpr (call n_g []);
+    SPrint (EVar n_x);
+    SAssert (EBin BLt (EVar n_x) (EInt 0)) n_sp2;
+    SPrint (EStr n_unreachable) ].
+
 (* operands left to right, once; && / || skip the call on the right when the left operand decides; x is read when its
    operand is evaluated (before a later sibling modifies it); self(..) in `rec`: 31 lines *)
 Example C15_nv_order_program :
@@ -146,4 +164,15 @@ Example C12_nv_optional_program :
   run 5000 nv_c12 = ([[102; 97; 108; 108; 98; 97; 99; 107; 32; 101; 118; 97; 108; 117; 97; 116; 101; 100]; [50; 48]; [51]; [52]; [116; 114; 117; 101]; [116; 114; 117; 101]; [105; 115; 32; 110; 105; 108]; [54]; [51; 48]; [51]; [97; 110; 111; 110]; [50]; [49]; [115; 116; 105; 108; 108; 32; 104; 101; 114; 101]]%N, ROFail (FUnwrapNil n_sp4)) /\
   fst (vm_out nv_c12 5000) = fst (run 5000 nv_c12) /\
   (exists fs, snd (vm_out nv_c12 5000) = RuntimeErr (E_unwrap_nil n_sp4) fs).
+Proof. vm_compute. repeat split. eexists. reflexivity. Qed.
+
+(* the features of the two fragments MIXED: a closure that writes through a captured variable inside a `while true` loop
+   left by `break`, with `continue`, an else-if chain, `assert`, op-assignments on a local and on the captured variable
+   (through its cell), a function ending with a bare `return` called in statement position; the last assert fails: both
+   sides stop with its span after the same 3 lines *)
+Example C01_nv_mixed_program :
+  in_fragment2 nvp nv_mix = true /\ in_fragment nvp nv_mix = true /\
+  run 5000 nv_mix = ([[54]; [50; 48]; [49; 55]]%N, ROFail (FAssert n_sp2)) /\
+  fst (vm_out nv_mix 5000) = fst (run 5000 nv_mix) /\
+  (exists fs, snd (vm_out nv_mix 5000) = RuntimeErr (E_assert n_sp2) fs).
 Proof. vm_compute. repeat split. eexists. reflexivity. Qed.
